@@ -179,6 +179,16 @@ impl Engine for WorldEngine {
         out.extend(shrink_scenario(case, focus));
         out
     }
+    fn fixed_inputs(&self) -> (Vec<(crate::world::Violation, serde_json::Value)>, u64) {
+        let repo = std::env::var("REPO_DIR").unwrap_or_else(|_| "/repo".to_string());
+        match crate::corpus::library_vs_corpus(&repo, &self.property, None) {
+            Ok(x) => x,
+            Err(e) => {
+                eprintln!("HARNESS: conformance corpus unreadable: {e}");
+                (vec![], 0)
+            }
+        }
+    }
     fn reach_probes(&self) -> Vec<&'static str> {
         let mut v = vec!["op.mint.ok", "op.attenuate.ok", "op.tp_attach.ok", "op.seal.ok", "op.reload.ok"];
         match self.property.as_str() {
